@@ -32,7 +32,7 @@ struct Cfg19 {
     ascent: bool,
 }
 
-const NFRAG: usize = 7;
+const NFRAG: usize = 8;
 
 fn render(c: &Cfg19) -> Option<String> {
     let loc_ty = match (c.intern, c.loc) {
@@ -53,7 +53,8 @@ fn render(c: &Cfg19) -> Option<String> {
         s.push_str("#[recursive_ascent]\n");
     }
     if c.params {
-        s.push_str("grammar<'x, T>(scale: &'x T) where T: Clone + std::fmt::Debug;\n");
+        // the lifetime occurs in a trait bound of T and in no nonterminal type
+        s.push_str("grammar<'x, T>(scale: &'x T) where T: Clone + std::fmt::Debug + super::Mk<'x>;\n");
     } else {
         s.push_str("grammar;\n");
     }
@@ -106,6 +107,12 @@ fn render(c: &Cfg19) -> Option<String> {
         defs.push_str("G6: T = { \"a\" => scale.clone() };\n");
         add(&mut alts, "<g:G6> => { let _: T = g; }");
     }
+    if c.frags & 128 != 0 {
+        // macro parameters inside every shape of declared type: behind a reference, in a tuple,
+        // nested in generic arguments
+        defs.push_str("Ref7<T>: &'static T = { <t:T> => &*Box::leak(Box::new(t)) };\nTup7<T>: (T, Option<T>) = { <t:T> => (t, None) };\nNest7<T>: Vec<(T, &'static T)> = { <a:T> <b:Ref7<T>> => vec![(a, b)] };\nItem7: u16 = \"a\" => 7;\n");
+        add(&mut alts, "<r:Ref7<Item7>> \"b\" <t:Tup7<Item7>> \"b\" <n:Nest7<Item7>> <o:Ref7<Item7>?> => { let _: (&'static u16, (u16, Option<u16>), Vec<(u16, &'static u16)>, Option<&'static u16>) = (r, t, n, o); }");
+    }
     s.push_str("pub S: () = {\n");
     for a in alts {
         s.push_str(&format!("    {},\n", a));
@@ -123,7 +130,7 @@ fn run(ctx: &mut Ctx) {
     } else {
         let mut masks: Vec<u32> = vec![];
         for m in 0u32..(1 << NFRAG) {
-            if ctx.tier == Tier::Thorough || m.count_ones() <= 2 || m == (1 << NFRAG) - 1 || m == 0b0111111 {
+            if ctx.tier == Tier::Thorough || m.count_ones() <= 2 || m == (1 << NFRAG) - 1 || m == 0b0111111 || m == 0b10111111 {
                 masks.push(m);
             }
         }
